@@ -75,10 +75,12 @@ def run_schedule(sc):
     mc = w.mc
     out = []
     start = mc.step_count
-    for step in mc.irun(sum(s["n"] for s in sc["steps"])):
+    # the step number is the harness's own count of steps already performed (what the simulation had in step_count
+    # before the run, plus the steps consumed since), not whatever the counter reads while a step is in flight
+    for i, step in enumerate(mc.irun(sum(s["n"] for s in sc["steps"]))):
         names = [str(x) for x in step]
         hist = [str(n) for n, _ in mc.move_history]
-        out.append((mc.step_count, names, hist))
+        out.append((start + i, names, hist))
     mc.close()
     return start, out
 
